@@ -2,13 +2,19 @@
 from pyvc.runner import Run, Unit, resolve_failures
 from pyvc.front import Sources
 from pyvc import race
-from contracts import libinfo
+from contracts import libinfo, channelcap
 
 PYX = 'enspara/info_theory/libinfo.pyx'
 MUT = [('swapped-cell', PYX, "                jc[a_row, b_row, i, j] += 1", "                jc[a_row, b_row, j, i] += 1"),
        ('negative-ids-unchecked', PYX, '    assert a.min() >= 0, "States indices must be non-negative."\n', ''),
        ('wrong-column', PYX, "                j = b[t, b_row]", "                j = b[t, a_row]"),
        ('length-check-dropped', PYX, "    assert a.shape[0] == b.shape[0], 'Feature arrays a and b must match in length'\n", '')]
+MI = 'enspara/info_theory/mutual_info.py'
+MUT_CC = [('xy-grid', MI, "np.meshgrid(n_x, n_y, indexing='ij')", "np.meshgrid(n_x, n_y)"),
+          ('copy-dropped', MI, "    mi = mi.copy()\n\n    n_x = _validate", "    mi = mi\n\n    n_x = _validate"),
+          ('larger-count', MI, "min_num_states = np.fmin(", "min_num_states = np.fmax("),
+          ('second-axis-unchecked', MI, "n_y = _validate_feature_states_array(n_y, mi.shape[1])", "n_y = _validate_feature_states_array(n_y, len(n_y))"),
+          ('one-state-accepted', MI, "    if np.any(n < 2):", "    if np.any(n < 1):")]
 
 
 def run(tier, seed, update_lock=False):
@@ -16,6 +22,12 @@ def run(tier, seed, update_lock=False):
     u = Unit('joint-count-kernel', libinfo.registry(), mutants=MUT, budget=20)
     R.prove(u)
     R.canary_check(u)
+    # channel-capacity normalisation (clause of the statement): the real function and its validation helper under contract,
+    # for vectors of state counts and for one integer count per side
+    for form in ('array', 'scalar'):
+        uc = Unit('channel-capacity[%s]' % form, channelcap.registry(form), mutants=MUT_CC if form == 'array' else MUT_CC[2:3], budget=20)
+        R.prove(uc)
+        R.canary_check(uc)
     mod = Sources().module(PYX)
     if 'matrix_bincount2d' in mod.funcs:
         R.static_obligations('prange', [('matrix_bincount2d/' + oid, ok, d) for oid, ok, d in race.check(mod.funcs['matrix_bincount2d'])])
@@ -24,8 +36,10 @@ def run(tier, seed, update_lock=False):
     R.bounded('C18.py', 'run-time contracts (the statement) on the real joint_counts / mutual_information / weighted_mi / normalisation / entropy code',
               '<=3 features, <=3 states, <=6 frames; 8 integer dtypes; C/F/strided layouts; threads 1/4/16; rejected inputs (negative / too large ids, length mismatch)')
     R.report_known('C18.py')
-    resolve_failures(R, 'C18.py', lambda f: {'key': 'matrix_bincount2d', 'inputs': f['model'], 'obligation': f['oid']})
+    resolve_failures(R, 'C18.py', lambda f: {'key': f['oid'].split('::')[1].split('/')[0], 'inputs': f['model'], 'obligation': f['oid']})
     R.clauses = [{'clause': 'joint-count tables are exact for every integer type, layout and thread count; out-of-range ids and length mismatches are rejected', 'status': 'proved for the desugared kernel matrix_bincount2d (SMT: bounds of all subscripts, exact counts by loop invariants over a ghost count function, AssertionError exactly for out-of-range ids / length mismatch, race-freedom of the prange loop); dtype x layout x threads sweep bounded'},
-                 {'clause': 'MI: definition, non-negative, symmetric, diagonal = entropy, <= smaller marginal entropy, relabel / reorder invariance, pooled counts, weighted = unweighted, channel-capacity normalisation', 'status': 'bounded'},
+                 {'clause': 'MI: definition, non-negative, symmetric, diagonal = entropy, <= smaller marginal entropy, relabel / reorder invariance, pooled counts, weighted = unweighted', 'status': 'bounded'},
+                 {'clause': 'channel-capacity normalisation divides entry (i, j) by the log of the smaller of the two state counts', 'status': 'proved for channel_capacity_normalization and _validate_feature_states_array (SMT on mutual_info.py as it stands; vector and single-integer state counts; result entry = mi[i,j] / ln(min(n_x[i], n_y[j])), caller\'s matrix untouched, DataInvalid exactly for counts < 2 / wrong lengths); assumed: np.meshgrid / np.fmin / np.divide(out=) / np.log primitive contracts, ln uninterpreted; the same contract at run time on the real function'},
                  {'clause': 'relative entropy non-negative, zero exactly for equal distributions', 'status': 'bounded'}]
-    return R.finish('Deductive: the compiled counting kernel (desugared). Bounded: dtype harmonisation in joint_counts and all information-theoretic laws.', update_lock=update_lock)
+    R.assumptions += ['np.meshgrid (ij / xy grids of two vectors), np.fmin (= minimum on non-NaN operands), np.divide(out=) (element-wise real quotient stored into out), np.log (uninterpreted ln) obey their primitive contracts in pyvc/prims.py']
+    return R.finish('Deductive: the compiled counting kernel (desugared) and channel_capacity_normalization with its validation helper. Bounded: dtype harmonisation in joint_counts and all information-theoretic laws.', update_lock=update_lock)
